@@ -512,7 +512,12 @@ func (vt *Model) print(seq ansi.Print) {
 		vt.charsets.selected = vt.charsets.saved
 	}
 
+	// A cell of the grid is one or two columns wide, as in any VT: a
+	// character measured wider than that (U+2E3B is 4 wide) takes two
 	w := seq.Width
+	if w > 2 {
+		w = 2
+	}
 
 	// handle wrapping
 	var wrap bool
@@ -562,7 +567,7 @@ func (vt *Model) print(seq ansi.Print) {
 		Cell: vaxis.Cell{
 			Character: vaxis.Character{
 				Grapheme: seq.Grapheme,
-				Width:    seq.Width,
+				Width:    w,
 			},
 			Style: vt.cursor.Style,
 		},
